@@ -121,6 +121,10 @@ class MethodHarness:
     def init(self):
         return ()
 
+    def ignore_state(self):
+        """Signals (registers) left out of the BFS key; Driver checks structurally that they are write-only sinks."""
+        return ()
+
     def count(self, key, n=1):
         self.counters[key] = self.counters.get(key, 0) + n
 
@@ -194,7 +198,7 @@ class MethodHarness:
             self.input_names = [n for n, _ in inputs]
             self.obs_names = [n for n, _ in observed]
             self.top = top
-            drv = Driver(top, inputs, observed)
+            drv = Driver(top, inputs, observed, ignore_state=self.ignore_state())
         finally:
             ctx.__exit__(None, None, None)
         self.drv = drv
